@@ -11,6 +11,7 @@
    structure ids apart), refs_wfb (no id 0, the schema calls exactly the ArrayBase subtypes arrays, `sofa` features hold
    sofas), doc_ok_json (well-formed document). *)
 From Cassis Require Import Base Heap Schema Canon Reach JsonDoc Json JsonProofs JsonProofs2 JsonLex CorrC02.
+From Cassis Require Props.C02.
 Open Scope Z_scope.
 
 (* ================================================================================================ C04, JSON half *)
@@ -119,10 +120,10 @@ Print Assumptions C05_json_view_order.
    annotations behind astral characters, arrays, reserved feature names, a shared reference): all premises hold, the
    document is closed, and the id-keyed, reversed presentation of it denotes the same content *)
 Example PropsJson_premises_hold :
-  let s := full_schema (c_user CorrC02.ex_case) in
-  match save_json std_lex s MMinimal (c_cas CorrC02.ex_case) with
+  let s := full_schema (c_user Props.C02.ex_case) in
+  match save_json std_lex s MMinimal (c_cas Props.C02.ex_case) with
   | Ok (d, c') =>
-      wf_jsonb s c' = true /\ ids_distinctb s c' = true /\ refs_wfb s c' = true /\ 0 < c_next_id (c_cas CorrC02.ex_case) /\
+      wf_jsonb s c' = true /\ ids_distinctb s c' = true /\ refs_wfb s c' = true /\ 0 < c_next_id (c_cas Props.C02.ex_case) /\
       schema_keys_okb s = true /\
       doc_ids_distinctb d = true /\ doc_refs_resolveb d = true /\ doc_ok_json std_lex s d = true /\
       match fs_entries d with
